@@ -9,7 +9,7 @@ use crate::model::*;
 use crate::oracle;
 use crate::runner::Scenario;
 
-const RULE: &str = "zero-fault arm (`deliver-clean`): an issuer of each protocol at each layer (core with an explicit seeded nonce; generic and batteries builders with the nonce drawn through the entropy seam and default claims through the clock seam) builds a token; the channel delivers it verbatim after a simulated delay to the matching verifier (long-lived parser plus a freshly constructed twin). Generated per run: protocol, layers, key class (random, all-zero, all-one, one-bit), message length class (0, 1, 15/16/17, 31..33, 63..65, 127..129, 255/256, 4095..4097, 65535..65537, 100000, random) and alphabet (ASCII, multi-byte to 4-byte code points, NUL, '.'), footer/assertion in {none, explicit empty, UTF-8*}, batteries delivery delay in [1 ns, 1 h) with intra-parse clock ticks. Non-trivial = anything but the default short-ASCII/no-footer/no-assertion case; distinct = distinct abstract traces.";
+const RULE: &str = "zero-fault arm (`deliver-clean`): an issuer of each protocol at each layer (core with an explicit seeded nonce; generic and batteries builders with the nonce drawn through the entropy seam and default claims through the clock seam) builds a token; the channel delivers it verbatim after a simulated delay to the matching verifier (long-lived parser plus a freshly constructed twin). Generated per run: protocol, layers, key class (random, all-zero, all-one, one-bit), message length class (0, 1, 15/16/17, 31..33, 63..65, 127..129, 255/256, 4095..4097, 65535..65537, 100000, random; plus COMPLETE sweeps of every length 0..=2175 at the core layer and 0..=1343 through the generic builder/parser for each local protocol, 0..=1343 for v2/v4.public, 0..=255 for v3.public, 0..=127 for v1.public) and alphabet (ASCII, multi-byte to 4-byte code points, NUL, '.'), footer/assertion in {none, explicit empty, UTF-8*}, batteries delivery delay in [1 ns, 1 h) with intra-parse clock ticks. Non-trivial = anything but the default short-ASCII/no-footer/no-assertion case; distinct = distinct abstract traces.";
 
 pub static C01: Scenario = Scenario {
     property: "C01",
@@ -25,7 +25,7 @@ pub static C01: Scenario = Scenario {
         "no fault dimension of its own: this is seeded input generation executed inside the simulator; the simulator contributes replayable builder-layer tokens (entropy and clock seams) and delivery inside the validity window",
         "batteries layer is judged only when nbf < now < exp at the verifier (C12 is silent at equality)",
     ],
-    exhaustive: &[],
+    exhaustive: &["every message length 0..=2175 (core layer) and 0..=1343 (generic builder + parser) for each of v1..v4.local"],
 };
 
 pub static C02: Scenario = Scenario {
@@ -42,7 +42,7 @@ pub static C02: Scenario = Scenario {
         "key pool: Ed25519 and P-384 pairs derived from seeds in the harness, five committed RSA-2048 pairs",
         "v1.public signatures use ring's real RSA-PSS salt (not simulated): a v1.public token's bytes differ between executions, its verdict does not",
     ],
-    exhaustive: &[],
+    exhaustive: &["every message length 0..=1343 for v2.public / v4.public (core; v4 also generic), 0..=255 for v3.public, 0..=127 for v1.public"],
 };
 
 fn mark_nontrivial(mut j: oracle::Judgement, run: &Run) -> oracle::Judgement {
@@ -58,7 +58,62 @@ fn mark_nontrivial(mut j: oracle::Judgement, run: &Run) -> oracle::Judgement {
     j
 }
 
+/// Complete sweeps of the message length (every length in a range, not a sample): core layer and the generic
+/// builder/parser pair.  Run `i` covers one (protocol, layer, chunk of consecutive lengths).
+fn gen_length_sweep(ctx: &GenCtx, i: u64, local: bool) -> Option<Option<Run>> {
+    let prop = if local { "C01" } else { "C02" };
+    // (protocol, layer, first length, chunk size, number of chunks)
+    let plan: Vec<(Proto, Layer, usize, usize, u64)> = if local {
+        let mut p = vec![];
+        for proto in LOCALS {
+            p.push((proto, Layer::Core, 0usize, 64usize, 34u64));
+            p.push((proto, Layer::Generic, 0, 64, 21));
+        }
+        p
+    } else {
+        vec![
+            (Proto::V2P, Layer::Core, 0, 64, 21),
+            (Proto::V4P, Layer::Core, 0, 64, 21),
+            (Proto::V4P, Layer::Generic, 0, 64, 21),
+            (Proto::V3P, Layer::Core, 0, 32, 8),
+            (Proto::V1P, Layer::Core, 0, 16, 8),
+        ]
+    };
+    let mut k = i;
+    for (proto, layer, first, chunk, nchunks) in plan {
+        if k < nchunks {
+            let mut r = run_rng(ctx, prop, i);
+            let mut rb = RunBuilder::new(prop, "deliver-clean/length-sweep", ctx.verif_seed, i);
+            let now = gen_now(&mut r);
+            let key = rb.key(key_for(proto, &mut r));
+            let footer = if r.chance(1, 3) { Some(nonempty_text!(r, 6)) } else { None };
+            let assertion = if proto.has_assertion() && r.chance(1, 3) { Some(nonempty_text!(r, 6)) } else { None };
+            let mut verifier: Option<u32> = None;
+            for len in first + (k as usize) * chunk..first + (k as usize + 1) * chunk {
+                let message = ascii!(r, len);
+                let opts = IssueOpts { proto, layer, key, footer: footer.clone(), assertion: assertion.clone(), now, message, json_payload: None, extra_claims: vec![] };
+                let t = issue(&mut rb, &mut r, opts);
+                let v = match verifier {
+                    Some(v) => v,
+                    None => {
+                        let v = rb.verifier(plain_spec(&t, layer));
+                        verifier = Some(v);
+                        v
+                    }
+                };
+                rb.deliver(t.msg, v, now + 1_000_000);
+            }
+            return Some(Some(rb.finish()));
+        }
+        k -= nchunks;
+    }
+    None
+}
+
 fn gen(ctx: &GenCtx, i: u64, local: bool) -> Option<Run> {
+    if let Some(run) = gen_length_sweep(ctx, i, local) {
+        return run;
+    }
     let prop = if local { "C01" } else { "C02" };
     let mut r = run_rng(ctx, prop, i);
     let protos: [Proto; 4] = if local { LOCALS } else { [Proto::V1P, Proto::V2P, Proto::V3P, Proto::V4P] };
